@@ -51,6 +51,8 @@ fn id_class() -> BoxedStrategy<u32>
         1 => Just(0u32),
         2 => (0u32..6).prop_map(|j| u32::MAX - j),
         1 => any::<u32>(),
+        // values where the number of digits or of significant bits changes
+        1 => (proptest::sample::select(&[9u32, 10, 99, 100, 255, 256, 999, 1000, 32767, 32768, 65535, 65536, 999_999_999, 1_000_000_000, 2_147_483_647, 2_147_483_648][..]), 0u32..3).prop_map(|(b, d)| b.saturating_add(d).saturating_sub(1)),
     ]
     .boxed()
 }
